@@ -756,17 +756,19 @@ func (s *clientSocket) registerAckHandler(f any, timeout time.Duration) (id uint
 		delete(s.acks, id)
 		s.acksMu.Unlock()
 
-		remove := func(slice []sendBufferItem, s int) []sendBufferItem {
-			return append(slice[:s], slice[s+1:]...)
-		}
-
+		// Remove every buffered frame (header and attachments) of the timed out packet.
+		// Filter into a fresh slice: removing elements from the slice being ranged over
+		// skips frames and can index out of range.
 		s.sendBufferMu.Lock()
-		for i, packet := range s.sendBuffer {
+		filtered := make([]sendBufferItem, 0, len(s.sendBuffer))
+		for _, packet := range s.sendBuffer {
 			if packet.ackID != nil && *packet.ackID == id {
 				s.debug.Log("Removing packet with ack ID", id)
-				s.sendBuffer = remove(s.sendBuffer, i)
+				continue
 			}
+			filtered = append(filtered, packet)
 		}
+		s.sendBuffer = filtered
 		s.sendBufferMu.Unlock()
 	})
 	if err != nil {
